@@ -191,6 +191,8 @@ func record(st *vk.FieldStat, key string, h header) {
 	}
 }
 
+var layouts = map[int]*log.JSONLayout{}
+
 // TestC07_Direct formats generated events with JSONLayout.ToBytes.
 func TestC07_Direct(t *testing.T) {
 	vk.Rule(rule)
@@ -202,7 +204,11 @@ func TestC07_Direct(t *testing.T) {
 		h := genHeader(t, true)
 		ctx := vk.GenFieldList(t, "ctx", 3, &st, opts())
 		fld := vk.GenFieldList(t, "fld", 7, &st, opts())
-		lay := &log.JSONLayout{BaseLayout: log.BaseLayout{FileLineLength: h.W}}
+		lay := layouts[h.W] // long-lived layout instances, reused across events
+		if lay == nil {
+			lay = &log.JSONLayout{BaseLayout: log.BaseLayout{FileLineLength: h.W}}
+			layouts[h.W] = lay
+		}
 		e := &log.Event{Level: h.Level, Time: h.Time, File: h.File, Line: h.Line, Tag: h.Tag, Fields: fld.Fields, CtxString: h.Ctx, CtxFields: ctx.Fields}
 		line := bytes.Clone(lay.ToBytes(e))
 		desc := h.desc() + " ctx=[" + strings.Join(ctx.Desc, "; ") + "] fields=[" + strings.Join(fld.Desc, "; ") + "]"
